@@ -23,6 +23,7 @@ namespace
 Counter p_append_full("probe.append_on_full");
 Counter p_erase_mid("probe.erase_in_the_middle");
 Counter p_erase_foreign("probe.erase_position_of_another_container");
+Counter p_no_args("probe.emplace_back_without_arguments");
 Counter p_emplace_mid("probe.emplace_before_existing");
 Counter p_pop_empty("probe.pop_on_empty");
 Counter p_at_eq_size("probe.checked_access_at_size");
@@ -53,6 +54,7 @@ enum Origin
 };
 constexpr uint32_t ALIVE = 0xA11CE5ED, DEAD = 0xDEADDEAD;
 constexpr int HUSK = -2;
+constexpr int DEFAULTED = -3; // model value of an element created by emplace_back() without arguments
 
 enum SiteTag
 {
@@ -160,12 +162,22 @@ struct ElemCore
     }
 };
 
+// set around emplace_back() without arguments: the value-initialised temporary that becomes the new
+// element is the caller's element (unlike the value-initialised slots of the array)
+bool g_requested_default = false;
+
 struct Tracked : ElemCore
 {
     Tracked()
     {
         tsite(ST_DEFAULT_CTOR);
-        born(-1, O_DEFAULT);
+        if (g_requested_default)
+        {
+            g_requested_default = false;
+            born(DEFAULTED, O_CALLER);
+        }
+        else
+            born(-1, O_DEFAULT);
     }
     explicit Tracked(int v)
     {
@@ -682,7 +694,21 @@ struct Exec
             if constexpr (T::copyable)
             {
                 std::vector<T> vals = make_values(n, static_cast<int>(op.a[3]));
-                res = guarded([&] { np = new FV(cap, vals); });
+                if constexpr (T::flavor == 2)
+                {
+                    // (a type whose move assignment is deleted can only be read through a const source)
+                    const std::vector<T>& cvals = vals;
+                    res = guarded([&] { np = new FV(cap, cvals); });
+                }
+                else
+                    res = guarded([&] { np = new FV(cap, vals); });
+                // a named source range is copied from, not taken over
+                for (int k = 0; k < n && res == RS_OK; k++)
+                    if (vals[static_cast<size_t>(k)].origin == O_MOVED || vals[static_cast<size_t>(k)].id != val_of(static_cast<int>(op.a[3]), k))
+                    {
+                        fail("C07/contents", op, opi, presize, precap, "constructing from a named range left its element " + std::to_string(k) + " modified (moved from)");
+                        break;
+                    }
             }
             else
             {
@@ -926,7 +952,22 @@ struct Exec
                         v = (v + 1) % 8;
                     }
                 }
-                if (!two)
+                bool none = false;
+                if constexpr (T::flavor == 0)
+                    none = !two && (op.a[2] & 2) != 0;
+                if constexpr (T::flavor == 0)
+                {
+                    if (none)
+                    {
+                        // emplace_back() appends a value-initialised element, whatever the slot held before
+                        p_no_args++;
+                        g_requested_default = true; // the next default construction is the caller's element
+                        res = guarded([&] { ret = sl.p->emplace_back(); });
+                        g_requested_default = false;
+                        v = DEFAULTED;
+                    }
+                }
+                if (!two && !none)
                     res = guarded([&] { ret = sl.p->emplace_back(v); });
                 if (res == RS_OK && ret != sl.m.seq.size() && !must_raise)
                     fail("C07/contents", op, opi, presize, precap, "emplace_back returned wrong index");
@@ -1723,7 +1764,7 @@ public:
             case K_INSERT_LVALUE:
             case K_PUSH_BACK:
                 op.a[1] = static_cast<int64_t>(rng.below(NVAL));
-                op.a[2] = rng.chance(1, 5);
+                op.a[2] = rng.chance(1, 5) ? 1 : rng.chance(1, 6) ? 2 : 0;
                 if (t.size < t.cap)
                     t.size++;
                 break;
